@@ -28,6 +28,8 @@ NSB = "pika::thread_pool_bulk_detail::operation_state::bulk_receiver"
 
 
 def run(rep, tier):
+    from .common import unknown_helpers_are_not_violations
+    unknown_helpers_are_not_violations(rep, ("C11.R6",))
     rep.rule("C11.R1", "K2/K3: shape==0 completes once; all init_queue before any do_work_task; each worker spawned or run locally exactly once")
     rep.rule("C11.R2", "K3/K4: task: do_work in try, store_exception in the handler, finish() exactly once; empty queue -> finish without spawn; first exception wins")
     rep.rule("C11.R3", "K3/K7/K8: finish(): completion only on the last decrement, one of error/value; tasks_remaining initialised from num_worker_threads")
